@@ -21,6 +21,8 @@ type caseCfg struct {
 	P    pcfg   `json:"params"`
 	// refresh / transform only
 	Out *pcfg `json:"params_out,omitempty"`
+	// audit extensions (nil = the original workload)
+	X *xopt `json:"x,omitempty"`
 }
 
 var sigmas = []float64{3.2, 3.2, 1024, 1 << 30}
@@ -150,6 +152,7 @@ func cases(tier string, seed int64) []eng.Case {
 		}
 		add("ckks-refresh", i, cc, runCKKSRefresh)
 	}
+	xcases(tier, seed, logNs, add) // audit families (appended after the original ones)
 	return out
 }
 
@@ -217,13 +220,14 @@ func pickBGVT(r *eng.Rand, cf *pcfg) bool {
 func init() {
 	eng.Register(&eng.Monitor{
 		ID: "C16", Level: "exploration",
-		Rule:  "cases = (protocol family in {keyswitch (sk->shared key, sk->zero key, sk->public key), bgv-share, bgv-refresh, ckks-share, ckks-refresh}, scheme (rlwe NTT / non-NTT, bgv, ckks), ring type, logN, Q/P prime sizes, plaintext modulus family (full-slot t, t of smaller cyclotomic order) / default and non-default scale, secret distribution, party count 1..8 (cycled), flooding sigma in {3.2, 2^10, 2^30}; refresh cases: same or different output parameters incl. N_out = 2N, N/2); inside a case every input level is visited and, per level, sampled: decryption-share level, output level, slot count, mask size logBound (from GetMinimumLevelForRefresh with lambda in {16,40,64,128} or arbitrary), transform (nil, identity, slot map / permutation, x constant, 2-term linear map) x Decode/Encode flags x batched/non-batched input, share allocation level, 3-4 aggregation plans (index order, accumulator aliased to the second operand, random permutation, random binary tree), ShallowCopy instances for odd parties, wire round trip of every third refresh share, in-place / out-of-place outputs. distinct key = (family, parameter tag, input level, share level, output level, slots, logBound, target / transform+flags, entry point); non-trivial = more than one party, or an input level below the maximum, or a share level below the input level, or a flooding sigma above the fresh one, or a transform, or different output parameters.",
+		Rule:  "cases = (protocol family in {keyswitch (sk->shared key, sk->zero key, sk->public key), bgv-share, bgv-refresh, ckks-share, ckks-refresh}, scheme (rlwe NTT / non-NTT, bgv, ckks), ring type, logN, Q/P prime sizes, plaintext modulus family (full-slot t, t of smaller cyclotomic order) / default and non-default scale, secret distribution, party count 1..8 (cycled), flooding sigma in {3.2, 2^10, 2^30}; refresh cases: same or different output parameters incl. N_out = 2N, N/2); inside a case every input level is visited and, per level, sampled: decryption-share level, output level, slot count, mask size logBound (from GetMinimumLevelForRefresh with lambda in {16,40,64,128} or arbitrary), transform (nil, identity, slot map / permutation, x constant, 2-term linear map) x Decode/Encode flags x batched/non-batched input, share allocation level, 3-4 aggregation plans (index order, accumulator aliased to the second operand, random permutation, random binary tree), ShallowCopy instances for odd parties, wire round trip of every third refresh share, in-place / out-of-place outputs. Audit families x-keyswitch, x-bgv-share, x-bgv-refresh, x-ckks-share, x-ckks-refresh run the same oracles with what the original families keep fixed: error distribution of the parameter set (tight / wide Gaussian, ternary), flooding sigma in {1, 3.2, 8, 2^10, 2^20, 2^30, 2^36} with truncation bound 2, 6 or 12 sigma, logN = 4 for a third of the cases, chains of 7-10 primes with 3-4 auxiliary primes for a sixth, and per case a non-empty subset of {history: protocol objects and every party's ShallowCopy / copy-of-a-copy live across all rounds; levels visited ascending or shuffled; used receivers: shares, additive shares and output ciphertexts pre-filled with uniform residues, allocated above / at another level than the one they end up at; ckks scales default*2^[-12,12]}; conjugate-invariant transforms also with decode-only and no decode / no encode; RefreshProtocol.ShallowCopy / AllocateShare called directly. Smudging noise is pooled per entry point and additionally per provenance of the instance (constructor, ShallowCopy, copy of a copy). Family x-contract: every combination the code documents as unsupported (non-Gaussian flooding distribution, share / crp / ciphertext / output level mismatches in GenShare, AggregateShares, GetEncryption, Transform, Finalize, share metadata differing from the ciphertext's, decode of a non-batched / encode-only of a batched ckks ciphertext, mask bound above the share modulus, smaller output ring) must return an error without panicking and leave every operand bit-identical; the largest admissible mask bound is accepted; two instances derive the same common reference polynomial from one CRS; GetMinimumLevelForRefresh on every prefix of the chain returns a level inside it whose modulus holds the masks. distinct key = (family, parameter tag, input level, share level, output level, slots, logBound, target / transform+flags, entry point); non-trivial = more than one party, or an input level below the maximum, or a share level below the input level, or a flooding sigma above the fresh one, or a transform, or different output parameters.",
 		Cases: cases,
 		Assumptions: []string{
 			"ring kernels (NTT, Montgomery products) used by the harness to evaluate c0+c1*s and c1*s_i are the ones judged by C01; everything after them is math/big",
 			"bgv/ckks encoders and the single-party encryptor/decryptor used to prepare inputs and read outputs are judged by C03/C07",
 			"noise upper bounds are worst-case (truncation bound of every sample); the smudging lower bound is empirical std >= requested sigma / 2 on >= 256 pooled coefficients",
 			"transform functions are linear over the message space (Z_t-linear, resp. R-linear), the only ones for which additive masking is defined",
+			"refusals are required only where the method has an explicit error return for that combination in its source (documented by its error message); undocumented misuse (shorter additive shares, shares below the ciphertext level handed to KeySwitch) is not generated",
 		},
 	})
 }
@@ -233,10 +237,11 @@ func runKeySwitch(c *eng.Ctx, cc caseCfg) {
 	if w == nil {
 		return
 	}
+	w.setX(cc)
 	c.Sample(cc)
 	params := w.params
 	ksPool, pkPool := &pool{}, &pool{}
-	for level := params.MaxLevel(); level >= 0; level-- {
+	for _, level := range w.levels(params.MaxLevel()) {
 		logSlots := -1
 		if w.cf.Scheme == "ckks" {
 			logSlots = w.pickLogSlots(w.cp.LogMaxSlots())
@@ -251,4 +256,6 @@ func runKeySwitch(c *eng.Ctx, cc caseCfg) {
 	nd := ksNoise(params, w.fl)
 	checkFloor(c, "C16|multiparty.KeySwitchProtocol.GenShare", ksPool, nd.Sigma, nd.Sigma)
 	checkFloor(c, "C16|multiparty.PublicKeySwitchProtocol.GenShare", pkPool, w.fl.Sigma, 0)
+	w.checkPools("ks", "C16|multiparty.KeySwitchProtocol.GenShare", nd.Sigma, nd.Sigma)
+	w.checkPools("pcks", "C16|multiparty.PublicKeySwitchProtocol.GenShare", w.fl.Sigma, 0)
 }
